@@ -31,6 +31,9 @@ RULES = {
              "assigns one of them. A log that spans several blocks is otherwise recovered with a whole block of acknowledged records missing",
     "C21.8": "the vendored engine's reader accepts what its writer acknowledged (= C07.6 on octopii/src/wal/wal): every comparison in Block::read, with which the restart scan "
              "measures how much of a block is in use, is the header-length sanity test, `entry end > file length` or the checksum comparison",
+    "C21.9": "the recovery read does not fail on a budget cut (= C03.5 on the vendored engine): read_all's 10 MiB reads cut the last planned range inside an entry whenever the log "
+             "spans two blocks; the batch read returns Err only on a failed completion or a checksum mismatch, never for an entry that is incomplete in its range - read_all "
+             "swallows the error and the reopened store comes back empty",
     "C21.4": "peer addresses: in persist_peer_addr_if_needed the map insert and the `needs persist` flag are set together, and the flag's then-branch `?`-propagates "
              "append_peer_addr_record; load_peer_addr_records and recover_from_wal both read through WriteAheadLog::read_all (so C21.1 covers both)",
 }
@@ -293,6 +296,8 @@ def check_engine_recovery_verifies(ctx):
     check_cursor_pairs(ctx, facts, rid="C21.7")
     from .c07 import check_reader_rejections
     check_reader_rejections(ctx, facts, rid="C21.8")
+    from .c03 import check_batch_error_reasons
+    check_batch_error_reasons(ctx, facts, rid="C21.9")
 
 
 def run(ctx):
